@@ -97,6 +97,11 @@ def make_net(rng, idx, profile):
         return netgen.pattern_net(rng, idx, profile.split(":", 1)[1], variant=idx)
     if profile.startswith("pattern:"):
         return netgen.pattern_net(rng, idx, profile.split(":", 1)[1])
+    if profile.startswith("hl2npu:"):
+        # families that aim at the branches of high_level_command_to_npu_op.py (harness/hl2npu_nets.py)
+        import hl2npu_nets
+
+        return hl2npu_nets.build(rng, idx, profile.split(":", 1)[1] or None)
     if profile == "weird":
         return netgen.weird_net(rng, idx)
     if profile == "known_cascade_s3":
